@@ -190,7 +190,9 @@ class C12(Prop):
             return out
         if not (abs(t[0]) <= PI / 6 + eps and abs(t[1]) <= PI / 2 + eps and -eps <= t[2] < 2 * PI + eps and -eps <= t[3] <= 1 + eps and
                 abs(t[4]) <= PI / 2 + eps):
-            out.append(('range', 'Tape parameters out of their documented ranges: %r' % (t,), None))
+            only_slip = (abs(t[0]) <= PI / 6 + eps and abs(t[1]) <= PI / 2 + eps and -eps <= t[2] < 2 * PI + eps and -eps <= t[3] <= 1 + eps)
+            key = 'range-horizontal-plane' if (only_slip and t[3] > 1 - 1e-9) else 'range'
+            out.append((key, 'Tape parameters out of their documented ranges: %r' % (t,), None))
         ref = case['mt'] if case['kind'] == 'mt6' else impl['mt']
         nrm = math.sqrt(sum(x * x for x in ref))
         if not close(nrm, 1.0, atol=1e-9):
